@@ -116,7 +116,7 @@ def gen_case(rng, i):
     # the declaring file: its name matters to .InterfaceFile; a //line directive (generated sources: goyacc, cgo, protoc plugins) must not change it
     return {"kind": "expr", "i": i, "layout": layout, "cwd": cwdmode, "cfgname": rng.choice([".mockery.yml", ".mockery.yaml"]),
             "iface": iname, "exprs": exprs, "what": kind, "srcfile": rng.choice(["iface.go", "iface.go", "catalog.go", "billing.go", "go.go", "api_gogo.go"]),
-            "linedir": rng.choice([None, None, None, "gen/grammar.y:9", "/abs/elsewhere/x.go:1", "other.go:3"])}
+            "linedir": rng.choice([None, None, None, "gen/grammar.y:9", "/abs/elsewhere/x.go:1", "other.go:3"]), "linepos": rng.choice(["type", "package"])}
 
 
 KF_IDR = {"kind": "expr", "i": -1, "layout": "nested", "cwd": "subdir", "cfgname": ".mockery.yml", "iface": "Store", "what": "kf-interfacedirrelative",
@@ -130,6 +130,8 @@ FIXED = [
     KF_IDR,
     {"kind": "expr", "i": -6, "layout": "initialism", "cwd": "cfgdir", "cfgname": ".mockery.yml", "iface": "Uri", "what": "initialisms", "srcfile": "iface.go", "linedir": None,
      "exprs": {"structname": "M{{ .InterfaceName | exported }}{{ \"utf8\" | exported }}{{ \"id\" | exported }}", "dir": "out/{{ .SrcPackageName | exported }}", "filename": "m.go", "pkgname": "m"}},
+    {"kind": "expr", "i": -9, "layout": "sub", "cwd": "cfgdir", "cfgname": ".mockery.yml", "iface": "Store", "what": "line-directive", "srcfile": "parser_gen.go", "linedir": "grammar/expr.y:1", "linepos": "package",
+     "exprs": {"structname": "MockStore", "dir": "{{.InterfaceDir}}", "filename": "mock_{{ .InterfaceFile | base | trimSuffix \".go\" }}_test.go", "pkgname": "store"}},
     {"kind": "expr", "i": -7, "layout": "nested", "cwd": "cfgdir", "cfgname": ".mockery.yml", "iface": "_Hidden", "what": "mock-by-exportedness", "srcfile": "iface.go", "linedir": None,
      "exprs": {"structname": "{{.Mock}}{{.InterfaceName}}", "dir": "out/{{.Mock}}", "filename": "{{.Mock}}_x.go", "pkgname": "m"}},
     {"kind": "expr", "i": -8, "layout": "sub", "cwd": "cfgdir", "cfgname": ".mockery.yml", "iface": "élan", "what": "mock-by-exportedness", "srcfile": "iface.go", "linedir": None,
@@ -148,7 +150,9 @@ def eval_case(ctx, case):
     iname = case["iface"]
     srcfile = case.get("srcfile", "iface.go")
     linedir = ("//line %s\n" % case["linedir"]) if case.get("linedir") else ""
-    files = {os.path.join(reldir, srcfile): "package %s\n\n%stype %s interface{ Do(x int) error }\n" % (pkgname, linedir, iname),
+    # the //line directive precedes the interface declaration, or the package clause itself (goyacc / protoc-gen style headers)
+    at_pkg = case.get("linepos") == "package"
+    files = {os.path.join(reldir, srcfile): "%spackage %s\n\n%stype %s interface{ Do(x int) error }\n" % (linedir if at_pkg else "", pkgname, "" if at_pkg else linedir, iname),
              os.path.join(reldir, "aaa_first.go"): "package %s\n\nvar _ = 0\n" % pkgname, os.path.join(reldir, "zzz_last.go"): "package %s\n\nvar _ = 1\n" % pkgname,
              "cwdsub/deeper/keep.go": "package deeper\n", "elsewhere/keep.go": "package elsewhere\n",
              "probeA.templ": probe.probe_template("A")}
